@@ -41,6 +41,7 @@ claim("C18", "model_checking", "Env.tla: legal decisions, declared spaces and wh
 claim("C14", "model_checking", "Rebuild.tla: from_job_sequences as a function, model-checked for every non-flexible instance of the family and every tuple of per-machine permutations (accepted <=> acyclic, result feasible/complete/ordered); views, dict/JSON/Taillard round trips and schedule round trips of real objects compared with the definitions of JobShop.tla by the monitor; instance fingerprint unchanged in every event of every trace.", N_D + " Text encodings only up to abstract content.", T_D, "5/C14")
 claim("C15", "exploration", "Pairs of operations / scheduled operations / schedules / instances built independently from TLC-generated instances and histories; the monitor judges a==b against equality of the abstract content, symmetry, reflexivity, !=, hashes, transitivity on triples. A pure relation - the specification only contributes content equality, hence exploration level.", N_D, "TLC-generated instances/histories -> real objects compared pairwise -> TLA+ monitor (content equality)", "5/C15")
 claim("C19", "model_checking", "Generator.tla: generator objects over random streams, same seed => prefix-related outputs under every interleaving (TLC; the global-stream design is refuted); GeneratorShape.tla: WellShaped(params, instance). TLC-chosen call interleavings executed on real generators over a grid of parameter sets; every generated instance, names, iteration counts and machine coverage judged by the monitor.", N_D + " Shape half: sampled generated instances (exploration of the random stream).", T_D, "5/C19")
+claim("C20", "model_checking", "Viz.tla: the frame naming scheme + file-name sort as a function, frame i of n loaded at position i for every n <= 260 (TLC; the plain string sort is refuted at n = 100); real charts read back bar by bar from matplotlib and compared with Bars(schedule) by the monitor; the real GIF pipeline run on histories of up to 105 (thorough 250) dispatches and the written file decoded frame by frame.", N_D + " matplotlib/imageio are black boxes (outputs judged).", T_D, "5/C20")
 
 
 def build(registered):
